@@ -30,8 +30,12 @@ CLAIMS = {
          "ends) and is silent afterwards (C04_silent_after_end); closed forms for merge and take_until. Each run executes all pairs of "
          "scripts <= 3 items x all interleavings x local and _threads forms, plus cold inputs in every position, on the crate; and the "
          "_threads forms driven by two or three real threads under every schedule with <= 2 context switches at mutex granularity: what is "
-         "delivered must be the definition's output for some merge of the threads' calls (linearizability).",
-         "DESIGN.md section 5 C04"),
+         "delivered must be the definition's output for some merge of the threads' calls (linearizability). Tie by TRANSLATION as well "
+         "(Props/C04src.v): the method bodies of the observers handed to the two inputs of all eight operators - impl blocks inside the "
+         "macros included - are parsed from /repo/src on every run (T5) and evaluated in Coq (Model/RustSem.v; shared cells modelled as "
+         "their content, both observers holding the same); C04_source_step: for every shared state, either input and every notification, "
+         "one call leaves exactly the machine's state in the cell and sends on exactly the machine's output; "
+         "C04_source_runs_like_the_machine: any merged timeline.", "DESIGN.md section 5 C04 and 11.11"),
  "C06": ("Theorem C06_subject_refines: for every history (any length, any number of subscribers) of subscribe / unsubscribe-one / "
          "next / next-with-subscription-inside-a-callback / error / complete / clone / retain / unsubscribe-subject and queries, the "
          "observers+chamber implementation model yields exactly the deliveries and answers of the abstract multicast set (refinement with "
@@ -263,6 +267,9 @@ CLAIMS = {
 }
 
 TECH_OF = {
+ "C04": "Coq proof over a model tied to the source twice: by translation (the two-input observers' method bodies parsed from /repo/src on every "
+        "run and evaluated in Coq equal the model's machines, for all states, inputs and notifications) and by differential correspondence "
+        "(extracted model/spec vs the crate, real threads under enumerated schedules for the thread-safe forms)",
  "C03": "Coq proof over a model tied to the source twice: by translation (the observers' method bodies parsed from /repo/src on every run and "
         "evaluated in Coq equal the model's machines, for all states and inputs) and by differential correspondence (extracted model/spec vs the crate)",
  "C16": "Coq proof over the hand-written model, its back channel tied to a table translated from every `fn is_finished` of /repo/src on every "
